@@ -346,4 +346,141 @@ Section Csv2.
     - destruct E3 as [E3|E3]; [discriminate|]. rewrite <- E3.
       eexists. split; [reflexivity|]. split; [split; assumption|reflexivity].
   Qed.
+
+  (* ---- linesToNode against a specification over rows --------------------------------------------- *)
+  Definition sel (c : col2) (i : nat) (row : list bytes) : bool :=
+    match k_line_index c with
+    | Some li => Nat.eqb li (S i)
+    | None => match k_line_pat c with
+              | Some p => re_match p (join delim row)
+              | None => true
+              end
+    end.
+
+  Definition val (c : col2) (row : list bytes) : bytes :=
+    if (k_index c <? 1) || (length row <? k_index c) then [] else nth (k_index c - 1) row [].
+
+  (* the first of the record's rows (numbered from i) that the column's line_index / line_pattern
+     selects *)
+  Fixpoint find_row (c : col2) (i : nat) (rws : list (list bytes)) : option (list bytes) :=
+    match rws with
+    | [] => None
+    | row :: r => if sel c i row then Some row else find_row c (S i) r
+    end.
+
+  Definition col_spec (c : col2) (rws : list (list bytes)) : list tree :=
+    match find_row c 0 rws with
+    | Some row => [text_elem (k_name c) (val c row)]
+    | None => []
+    end.
+
+  (* what a record node must be: per declared column, in declaration order, field `index` of the
+     selected row ("" beyond the row); a column that selects no row is absent *)
+  Definition node_spec (d : rec2) (rws : list (list bytes)) : tree :=
+    T ElementNode (q_name d) FNone (flat_map (fun c => col_spec c rws) (q_cols d)).
+
+  Lemma skipn_nth_cons {A} : forall i (l : list A) x, nth_error l i = Some x ->
+    skipn i l = x :: skipn (S i) l.
+  Proof.
+    induction i as [|i IH]; intros l x H; destruct l as [|a l]; try discriminate.
+    - inversion H; reflexivity.
+    - cbn [nth_error] in H. cbn [skipn]. apply (IH l x H).
+  Qed.
+
+  Lemma line_match2_rep c s rows i row : rep s rows -> nth_error rows i = Some row ->
+    exists s', line_match2 re_match delim c i s = (Ok (sel c i row), s') /\ rep s' rows /\ s_c s' = s_c s.
+  Proof.
+    intros H Er. unfold line_match2, sel. destruct (k_line_index c) as [li|]; [eauto|].
+    destruct (k_line_pat c) as [p|]; [|eauto]. apply match_line_rep; assumption.
+  Qed.
+
+  Lemma col_node2_rep c rows : forall n i s, rep s rows -> i + n <= length rows ->
+    exists s', col_node2 re_match delim c n i s
+               = (Ok (option_map (fun row => text_elem (k_name c) (val c row))
+                                 (find_row c i (firstn n (skipn i rows)))), s')
+               /\ rep s' rows /\ s_c s' = s_c s.
+  Proof.
+    induction n as [|n IH]; intros i s H Hi; [cbn; eauto|].
+    destruct (nth_error rows i) as [row|] eqn:Er.
+    2:{ apply nth_error_None in Er. lia. }
+    cbn [col_node2]. destruct (line_match2_rep c s rows i row H Er) as (s1 & -> & H1 & Hc1).
+    rewrite (skipn_nth_cons i rows row Er). cbn [firstn find_row].
+    destruct (sel c i row).
+    - destruct H1 as [Hl1 Hr1]. pose proof (layout_length _ _ _ Hl1) as Hlen.
+      destruct (nth_error (s_lines s1) i) as [l|] eqn:El.
+      2:{ apply nth_error_None in El. lia. }
+      rewrite (col_value2_rep s1 rows i l row c (conj Hl1 Hr1) El Er). cbn [option_map].
+      eexists. split; [reflexivity|]. split; [split; assumption|exact Hc1].
+    - destruct (IH (S i) s1 H1 ltac:(lia)) as (s2 & E2 & H2 & Hc2).
+      rewrite E2. eexists. split; [reflexivity|]. split; [exact H2|congruence].
+  Qed.
+
+  Lemma cols_nodes2_rep rows n : n <= length rows -> forall cs s, rep s rows ->
+    exists s', cols_nodes2 re_match delim cs n s
+               = (Ok (flat_map (fun c => col_spec c (firstn n rows)) cs), s')
+               /\ rep s' rows /\ s_c s' = s_c s.
+  Proof.
+    intros Hn cs. induction cs as [|c cs IH]; intros s H; [cbn; eauto|].
+    cbn [cols_nodes2]. destruct (col_node2_rep c rows n 0 s H ltac:(lia)) as (s1 & -> & H1 & Hc1).
+    destruct (IH s1 H1) as (s2 & -> & H2 & Hc2).
+    eexists. split; [|split; [exact H2|congruence]].
+    cbn [flat_map skipn]. unfold col_spec.
+    destruct (find_row c 0 (firstn n rows)); reflexivity.
+  Qed.
+
+  (* linesToNode + popFrontLinesBuf: the node is the specified one for the first n buffered rows,
+     and exactly those rows leave the buffer *)
+  Lemma take_record2_rep d n s rows : rep s rows -> n <= length rows ->
+    exists s', take_record2 re_match delim d n true s = (Ok (true, Some (node_spec d (firstn n rows))), s')
+               /\ rep s' (skipn n rows) /\ s_c s' = s_c s.
+  Proof.
+    intros H Hn. unfold take_record2, lines_to_node2.
+    destruct H as [Hl Hr]. pose proof (layout_length _ _ _ Hl) as Hlen.
+    assert (E : (length (s_lines s) <? n) = false) by (apply Nat.ltb_ge; lia). rewrite E.
+    destruct (cols_nodes2_rep rows n Hn (q_cols d) s (conj Hl Hr)) as (s1 & -> & H1 & Hc1).
+    destruct (pop_front2_rep s1 rows n H1 Hn) as (s2 & -> & H2 & Hc2).
+    eexists. split; [reflexivity|]. split; [exact H2|congruence].
+  Qed.
+
+  (* the fill loop of readAndMatchRowsBasedRecord only appends rows, in reading order *)
+  Lemma fill_rows2_rep n : forall fuel s rows, rep s rows ->
+    exists more, rep (snd (fill_rows2 comma fuel n s)) (rows ++ more)
+      /\ (fst (fill_rows2 comma fuel n s) = Ok true -> n <= length (rows ++ more))
+      /\ (forall k, fst (fill_rows2 comma fuel n s) <> Err (OPanic k)).
+  Proof.
+    induction fuel as [|fuel IH]; intros s rows H.
+    - exists []. rewrite app_nil_r. cbn. split; [exact H|]. split; [discriminate|]. intros k E; discriminate.
+    - cbn [fill_rows2]. destruct (length (s_lines s) <? n) eqn:El.
+      + pose proof (c2_readline_rep s rows H) as Hr.
+        destruct (csv_next comma (s_c s)) as [r c'].
+        destruct r as [rec| | | |].
+        * destruct Hr as (s1 & -> & H1 & _). destruct (IH s1 _ H1) as (more & Hm1 & Hm2 & Hm3).
+          exists (rec :: more). rewrite <- app_assoc in Hm1, Hm2. cbn [app] in Hm1, Hm2. auto.
+        * destruct Hr as (o & s1 & -> & [->| ->] & H1); exists []; rewrite app_nil_r; cbn [fst snd];
+            (split; [exact H1|split; [discriminate|intros k E; discriminate]]).
+        * destruct Hr as (s1 & -> & H1 & _). exists []. rewrite app_nil_r.
+          destruct (Nat.eqb (length (s_lines s1)) 0); cbn [fst snd];
+            (split; [exact H1|split; [discriminate|intros k E; discriminate]]).
+        * destruct Hr as (o & s1 & -> & [->| ->] & H1); exists []; rewrite app_nil_r; cbn [fst snd];
+            (split; [exact H1|split; [discriminate|intros k E; discriminate]]).
+        * destruct Hr as (o & s1 & -> & [->| ->] & H1); exists []; rewrite app_nil_r; cbn [fst snd];
+            (split; [exact H1|split; [discriminate|intros k E; discriminate]]).
+      + exists []. rewrite app_nil_r. cbn [fst snd]. split; [exact H|]. split; [|intros k E; discriminate].
+        intros _. apply Nat.ltb_ge in El. destruct H as [Hl _]. rewrite <- (layout_length _ _ _ Hl). exact El.
+  Qed.
+
+  (* a rows based record: the node is the specified one for the next n rows in reading order, and
+     exactly those rows are consumed *)
+  Theorem csv2_rows_record_proof d n s rows t s' :
+    rep s rows -> q_shape d = Rows n ->
+    read_and_match2 re_match comma delim d true s = (Ok (true, Some t), s') ->
+    exists more, t = node_spec d (firstn n (rows ++ more)) /\ rep s' (skipn n (rows ++ more)).
+  Proof.
+    intros H Hs. unfold read_and_match2. rewrite Hs.
+    destruct (fill_rows2_rep n (S (n + c2_fuel s)) s rows H) as (more & Hm1 & Hm2 & _).
+    destruct (fill_rows2 comma (S (n + c2_fuel s)) n s) as [f s1]. cbn [fst snd] in *.
+    destruct f as [[|]|o]; try discriminate.
+    destruct (take_record2_rep d n s1 _ Hm1 (Hm2 eq_refl)) as (s2 & -> & H2 & _).
+    intro E. inversion E; subst. eauto.
+  Qed.
 End Csv2.
